@@ -213,8 +213,8 @@ theorem chargeFree_E {x : Str} (h : ChargeFree x) : ChargeFree (E x) :=
    fun hc => by rcases mem_E hc with e | e; exact h.plus e; exact absurd e (by decide),
    fun hc => by rcases mem_E hc with e | e; exact h.minus e; exact absurd e (by decide)⟩
 
-theorem formulaToParts_renderE (f : Formula) (hd : f.WFd) :
-    formulaToParts prefixesL suffixesL (E f.render)
+theorem formulaToParts_renderE (f : Formula) (hd : f.WFd) (sfxs : List Str) (hok : SfxOK sfxs f) :
+    formulaToParts prefixesL sfxs (E f.render)
       = .ok ⟨E f.renderStoich, f.charge.map Charge.render, f.prefixes, suffixList f.suffix⟩ := by
   have hsfx := noSuffixEnd_of_wf f hd
   let body := E f.renderStoich ++ renderCharge f.charge
@@ -233,20 +233,20 @@ theorem formulaToParts_renderE (f : Formula) (hd : f.WFd) :
     · rw [E_cons_nb hcb]; exact prefix_not_start p hp c _ hc
     · rw [E_cons_brace hcb]; exact prefixes_no_backslash p hp _
   have hstrip := stripPrefixes_sublist prefixesL prefixes_incomparable f.prefixes hd.prefixes (body ++ sfx) hstart
-  have hno : ∀ s ∈ suffixesL, ¬ s <:+ body := by
+  have hno : ∀ s ∈ sfxs, ¬ s <:+ body := by
     intro s hs hsuf
     rw [hbody] at hsuf
-    exact hsfx s hs (suffix_E (suffixes_special_free s hs) _ hsuf)
-  have hsuff : stripSuffixes suffixesL (body ++ sfx) = (suffixList f.suffix, body) := by
+    exact hsfx s (hok.sub s hs) (suffix_E (suffixes_special_free s (hok.sub s hs)) _ hsuf)
+  have hsuff : stripSuffixes sfxs (body ++ sfx) = (suffixList f.suffix, body) := by
     cases hs : f.suffix with
     | none =>
       have : sfx = [] := by simp [sfx, hs, renderSuffix]
       rw [this, List.append_nil]
-      exact stripSuffixes_none' suffixesL body hno
+      exact stripSuffixes_none' sfxs body hno
     | some s =>
       have : sfx = s := by simp [sfx, hs, renderSuffix]
       rw [this]
-      exact stripSuffixes_one' suffixesL suffixes_incomparable body s (hd.suffix s hs) hno
+      exact stripSuffixes_one'' sfxs hok.inc body s (hok.mem s hs) hno
   have hcf : ChargeFree (E f.renderStoich) := chargeFree_E (renderParts_chargeFree f.sep f.parts hd.parts)
   have := charge_cascade (E f.renderStoich) hcf f.charge hd.charge f.prefixes (suffixList f.suffix)
   have hrev : (suffixList f.suffix).reverse = suffixList f.suffix := by cases f.suffix <;> rfl
@@ -380,7 +380,8 @@ theorem fmtRest_specE (ps : List Part) (h : ∀ q ∈ ps, q.wf = true) :
     simp [andThen, presRest, latexFmtSpec.infx]
 
 /-- **`formula_to_latex` on the rendering of ANY well-formed formula** (all brackets): the presentation with `\{ … \}` -/
-theorem toLatex_render (f : Formula) (h : f.WF) : toLatex suffixesL f.render = .ok (present latexPres f) := by
+theorem toLatex_render (f : Formula) (h : f.WF) (sfxs : List Str) (hok : SfxOK sfxs f) :
+    toLatex sfxs f.render = .ok (present latexPres f) := by
   have hd := Formula.wfd f h
   obtain ⟨p, ps, hp, hn⟩ := hd.first
   have hsplit := split_stoichE f.sep p ps (fun q hq => hd.parts q (by rw [hp]; exact hq))
@@ -392,7 +393,7 @@ theorem toLatex_render (f : Formula) (h : f.WF) : toLatex suffixesL f.render = .
   have hrest := fmtRest_specE ps (fun q hq => hd.parts q (by simp [hp, hq]))
   have hpre := mapPrefixes_spec latexFmtSpec f.prefixes (fun q hq => hd.prefixes.subset hq)
   unfold toLatex formulaToFormat
-  rw [latexFmtSpec.keys, formulaToParts_renderE f hd]
+  rw [latexFmtSpec.keys, formulaToParts_renderE f hd sfxs hok]
   simp only [hstoich, hsplit, hpr, hfirst, hrest, andThen_some_some]
   have hchg : fmtCharge latexFmt (presTerms latexPres p.terms ++ presRest latexPres ps) (f.charge.map Charge.render)
       = .ok ((presTerms latexPres p.terms ++ presRest latexPres ps) ++ presCharge latexPres f.charge) := by
